@@ -149,7 +149,12 @@ def atom_key(a):
         a = d["element"]
         d = a.__dict__
     tbl = d.get("table", type(a).table)
-    return (tbl, d.get("number"), A, q)
+    return (tbl, _py(d.get("number")), _py(A), _py(q))
+
+
+def _py(x):
+    """numpy scalars (an atom created through a numpy key keeps it) as plain Python numbers"""
+    return x.item() if isinstance(x, np.generic) else x
 
 
 ALIAS = {}      # private table name -> "public" while a private table is digested
